@@ -32,3 +32,68 @@ SPEC = {
     'theorems': ['IblVerif.Tie.C03.ap_meta_eq', 'IblVerif.Tie.C03.recon_meta_eq'],
     'covers': "NP2Converter._writemetadata_ap: the metadata keys one shank's AP header gets (each from that shank's own channel list / file); NP2Reconstructor.write_metadata (keys rewritten / removed for the re-assembled file)",
 }
+
+
+# ---------------------------------------------------------------------------------------------------------------------
+# round h, second part: channel list / folder of one shank (_prepare_files_NP24), the window loop of _process_NP24 (what is
+# read, which rows are kept, what is appended, per window), NP2Reconstructor.process / get_params, the `+ 1` of _get_chans
+# ---------------------------------------------------------------------------------------------------------------------
+_EV_PREP = [
+    [r"^_shank_info\['chns'\] = np\.r_\[np\.where\(chn_info\['shank'\] == (\w+)\)\[0\], "
+     r"np\.array\(spikeglx\._get_sync_trace_indices_from_meta\(self\.sr\.meta\)\)\]$", 'chns_where_then_sync', [r'\1'], 'stmt'],
+    [r"^probe_path = self\.ap_file\.parent\.parent\.joinpath\(label \+ chr\((.*)\) \+ self\.extra\)$", 'folder_chr', [r'\1'], 'stmt'],
+    [r"^probe_path\.mkdir\(.*\)$", 'mkdir', []],
+    [r"^_shank_info\['ap_open_file'\] = open\(_shank_info\['ap_file'\], 'wb'\)$", 'open_ap', [], 'stmt'],
+    [r"^_shank_info\['lf_open_file'\] = open\(_shank_info\['lf_file'\], 'wb'\)$", 'open_lf', [], 'stmt'],
+    [r"^shank_info\[f'shank\{(\w+)\}'\] = _shank_info$", 'register', [r'\1'], 'stmt'],
+]
+_ET = r"(?:etype=)?'%s'"
+_EV_P24 = [
+    [r"^WindowGenerator\((.*), (.*), (.*)\)$", 'wg', [r'\1', r'\2', r'\3']],
+    [r"^chunk_ap = self\.sr\[(\w+):(\w+), :(.*)\]\.T$", 'read_ap', [r'\1', r'\2', r'\3'], 'stmt'],
+    [r"^chunk_ap_sync = self\.sr\[(\w+):(\w+), (.*):\]\.T$", 'read_sync', [r'\1', r'\2', r'\3'], 'stmt'],
+    [r"^self\._ind2save\(chunk_ap, chunk_ap_sync, wg, (?:ratio=)?(.*), " + _ET % 'ap' + r"\)$", 'ind2save_ap', [r'\1']],
+    [r"^self\._split2shanks\(chunk_ap2save, " + _ET % 'ap' + r"\)$", 'append_ap', []],
+    [r"^self\._closefiles\(" + _ET % 'ap' + r"\)$", 'close_ap', []],
+    [r"^self\._writemetadata_ap\(\)$", 'meta_ap', []],
+]
+_A_P24 = {r"self\.already_processed": False, r"self\.already_exists": False, r"self\.post_check": False,
+          r"self\.compress": False, r"self\.delete_original": False}
+_EV_RP = [
+    [r"^self\._prepare_files\(\)$", 'prepare', []],
+    [r"^self\.get_params\(\)$", 'params', []],
+    [r"^self\._reconstruct\(\)$", 'reconstruct', []],
+    [r"^self\.write_metadata\(\)$", 'meta', []],
+    [r"^self\.compress_file\(\)$", 'compress', []],
+]
+
+SPEC['items'] += [
+    {'name': 'prep_shank', 'module': 'neuropixel.py', 'function': 'NP2Converter._prepare_files_NP24', 'kind': 'events',
+     'loop_body': True, 'events': _EV_PREP, 'assume': {r"not probe_path\.exists\(\) or overwrite": True}, 'params': ['sh']},
+    {'name': 'wg_firstlast', 'module': 'ibldsp/utils.py', 'function': 'WindowGenerator.firstlast', 'kind': 'fn',
+     'generator': True, 'as': 'wg_firstlast', 'elem': '(Int × Int)', 'params': ['self_ns', 'self_nswin', 'self_overlap']},
+    {'name': 'p24_windows', 'module': 'neuropixel.py', 'function': 'NP2Converter._process_NP24', 'kind': 'events',
+     'events': _EV_P24, 'assume': _A_P24,
+     'params': ['self_nsamples', 'self_samples_window', 'self_samples_overlap', 'self_napch', 'self_idxsyncch',
+                'self_ns', 'self_nswin', 'self_overlap']},
+    {'name': 'recon_process_plain', 'module': 'neuropixel.py', 'function': 'NP2Reconstructor.process', 'kind': 'events',
+     'events': _EV_RP, 'assume': {r"self\.shank_info is None": False, r"self\.compress": False}},
+    {'name': 'recon_process_compress', 'module': 'neuropixel.py', 'function': 'NP2Reconstructor.process', 'kind': 'events',
+     'events': _EV_RP, 'assume': {r"self\.shank_info is None": False, r"self\.compress": True}},
+    {'name': 'recon_nch', 'module': 'neuropixel.py', 'function': 'NP2Reconstructor.get_params', 'kind': 'expr', 'target': 'self_nch',
+     'opaque': {r"np\.max\(self\.shank_info\['shank0'\]\['chns'\]\)": 'max_chns_shank0'}, 'params': ['max_chns_shank0']},
+    {'name': 'recon_window', 'module': 'neuropixel.py', 'function': 'NP2Reconstructor.get_params', 'kind': 'expr',
+     'target': 'self_samples_window'},
+    {'name': 'get_chans_stop', 'module': 'neuropixel.py', 'function': 'NP2Reconstructor._get_chans', 'kind': 'subexpr',
+     'pattern': r"int\(sub\[1\]\)( [+-] \d+)?", 'free': ['sub'], 'params': ['sub_1']},
+    {'name': 'get_chans_start', 'module': 'neuropixel.py', 'function': 'NP2Reconstructor._get_chans', 'kind': 'subexpr',
+     'pattern': r"int\(sub\[0\]\)", 'free': ['sub'], 'params': ['sub_0']},
+]
+SPEC['theorems'] += ['IblVerif.Tie.C03.prepare_eq', 'IblVerif.Tie.C03.firstlast_eq', 'IblVerif.Tie.C03.p24_windows_eq',
+                     'IblVerif.Tie.C03.recon_process_eq', 'IblVerif.Tie.C03.recon_params_eq', 'IblVerif.Tie.C03.get_chans_range_eq']
+SPEC['covers'] += ("; NP2Converter._prepare_files_NP24, one shank (channel list = where(shank == sh) then the sync indices, folder letter "
+                   "chr(97 + sh), files opened before the entry is registered under its own number); the AP half of _process_NP24 as an "
+                   "event sequence (window generator arguments, per window of WindowGenerator.firstlast: AP columns [0, napch) and sync "
+                   "columns [idxsyncch, ...) of the same rows, _ind2save with ratio 1, append; close, then metadata); "
+                   "NP2Reconstructor.process (step order, metadata after the file), get_params (nch = max + 1, window 2 * 30000), the "
+                   "arange bounds of _get_chans")
